@@ -150,6 +150,14 @@ End Args.
    catch handler, the extract part of foreach, the body of a label): a call of p there is outside the fragment.
    Compile.tailrec below is the pass as the Go code does it (a scan over the emitted code); Run.v checks on every
    sampled program that both give the same code. *)
+(* queries whose code is only jumps over function definitions: what follows them is reached by jumps alone *)
+Fixpoint transparent (q : query) : bool :=
+  match q with
+  | QId => true
+  | QPipe a b => transparent a && transparent b
+  | QDef _ _ _ rest => transparent rest
+  | _ => false
+  end.
 Definition tailpos := option (nat * option bool).
 Definition tl_fb (tl : tailpos) : tailpos := match tl with Some (p, _) => Some (p, None) | None => None end.
 Definition tail_call (tl : tailpos) (p : nat) : option instr :=
@@ -191,8 +199,8 @@ Fixpoint compg (q : query) (ce : cenv) (tp : tailpos) (cur pc nv sn : nat) {stru
   | QId => Some ([], nv, sn)
   | QConst c => Some ([Iconst c], nv + lit_vars c, sn)
   | QPipe a b =>
-      (* when b emits no code, a is followed by whatever follows the pipe *)
-      match compg a ce (match tp with None => None | Some _ => if emptycode b then tp else None end) cur pc nv sn with
+      (* when b only jumps over definitions, a is followed (through jumps) by whatever follows the pipe *)
+      match compg a ce (match tp with None => None | Some _ => if transparent b then tp else None end) cur pc nv sn with
       | Some (ca, n1, s1) =>
           match compg b ce tp cur (pc + length ca) n1 s1 with
           | Some (cb, n2, s2) => Some (ca ++ cb, n2, s2)
